@@ -153,6 +153,7 @@ Proof.
   assert (Hc3b : Z.abs c3 <= 2 ^ 62).
   { rewrite Hc3. destruct (lo <? 0); [|exact Hc2]. apply car_hr; auto. apply vbound_zseq; auto. }
   destruct (top_phase_spec b Hb true lsh res_end r2 c3 Hl ltac:(discriminate) Hc3b) as [T1 T2].
+  cbv beta in T2.
   set (out := fst (top_phase 64 true b lsh res_end (r2, c3))) in *.
   split; [rewrite T1, M2; exact Z1|].
   intros i Hi. rewrite T2, M2, Z1.
@@ -163,8 +164,9 @@ Proof.
     rewrite Hc3. destruct (Z.ltb_spec lo 0) as [_|]; [|lia].
     rewrite M1, Ham.
     pose proof (car_above lsh a gap) as CA. fold asz V in CA. rewrite CA. clear CA.
-    pose proof (dig_above lsh a (asz + gap) (res_end - 1 - i) (fun _ : nat => 0 * 2 ^ lsh)
-                  ltac:(unfold asz; lia) ltac:(intros; lia)) as DA. fold V in DA. rewrite DA. clear DA.
+    pose proof (dig_above lsh a (asz + gap) (res_end - 1 - i)
+                  (fun t : nat => if Nat.ltb t res_end then 0 * 2 ^ lsh else 0)
+                  ltac:(unfold asz; lia) ltac:(intros t; cbv beta; destruct (Nat.ltb t res_end); [apply Z.mul_0_l|reflexivity])) as DA. fold V in DA. rewrite DA. clear DA.
     rewrite dgz_nonneg by (unfold zn in *; lia).
     f_equal. unfold zn in *. lia.
   - rewrite M3, Z1. fold rsz.
